@@ -54,7 +54,7 @@ func newStepper(c *ev.Ctx, prop string, fs *memfs.FS, nconn int) *stepper {
 		return typOf(n.Mode), n.ID, true
 	})
 	for i := 0; i < nconn; i++ {
-		p := rawpeer.New(s.srv, nil)
+		p := rawpeer.New(s.srv, altTransport())
 		if r := p.Version(1<<16, v7); !r.OK {
 			s.dead = true
 		}
